@@ -4,17 +4,21 @@ Space: a finite catalogue of small static methods (assembled with gen/dalvik.py,
   tier A (operators)   every int/long binary opcode in 23x, /2addr, /lit16, /lit8 form with boundary literals, every
                        unary op, every cast among int/long/byte/short/char (single opcode or two-opcode composition),
                        every const form with boundary literals (returned and used as an operand), cmp-long -- each a 1-3
-                       instruction method;  thorough adds operand-placement variants (reversed, same register, result
-                       into a parameter register, via a moved copy)
+                       instruction method, plus byte/short/char parameter and return types around the casts;  thorough
+                       adds operand-placement variants (reversed, same register, result into a parameter register, via
+                       a moved copy)
   tier B (propagation) every ordered pair of a 16-op int alphabet chained through a temporary ("tmp": t=op1(a,b);
                        r=op2(t,b)) and through parameter reuse ("reuse": r=op2(a,t));  thorough adds two more chain
-                       modes and the 13-op long alphabet
+                       modes and the 13-op long alphabet;  plus hand-written propagation hazards ("special": swap,
+                       copy chains, redefinition of a propagated source, a div/rem whose result is unused)
   tier C (structure)   if / if-else (javac and dx layouts, merged and separate returns) for each of the 12 if-* ops,
                        cmp-long + if-*z, every 2- and 3-condition short-circuit shape (jump-target enumeration) with
                        and without else, while / do-while / for / nested / break / return-from-loop / continue /
-                       compound-condition loops (iteration counts bounded by (a & 7)), packed and sparse switches with
-                       default, gaps, shared targets, fall-through, returns -- instantiated over the comparison ops
-                       (quick: a diagonal of op tuples; thorough: the full op product)
+                       compound-condition / loop-and-a-half / rotated (javac "goto cond") loops (iteration counts bounded
+                       by (a & 7)), nested if and else-if ladders, a division computed before a branch or a loop,
+                       values defined in a loop body and used by the do-while condition / after the loop, packed and
+                       sparse switches with default, gaps, shared targets, fall-through, returns, switch in a loop --
+                       instantiated over the comparison ops (quick: a diagonal of op tuples; thorough: full op product)
 Every program is run on the FULL PRODUCT of its argument alphabets (15 x 15 tuples; long shifts 15 x 18).
 
 Oracle: reference = ref/interp.py on the assembled bytecode; candidate = the Java text of DvMethod.get_source(),
@@ -25,7 +29,9 @@ prints, per program, the result or the exception class name for every tuple.  Ex
                                                              rejected method is then removed and the rest recompiled)
   result differs                -> <key>:value-mismatch / <key>:exception-mismatch / <key>:nontermination
 Keys are input-side: tier + opcode family (mnemonic without /2addr,/lit8,/lit16) for tier A, tier + op pair for B,
-tier + skeleton id for C.
+tier + skeleton id for C (the op instantiation is part of the program id in the witness, not of the key).  A tier B pair
+that contains an operator whose own single-operator tier A program already fails is counted (`subsumed_by_tier_A`) and
+not reported again, so one wrong operator gives the tier A key only.
 """
 import itertools
 import os
@@ -235,7 +241,7 @@ def tier_a(thorough):
         add("sig:(%s%s)%s:return" % (T, T, T), "sig." + c, T + T, T, 2, lambda s, R: s.ins("return", R.b))
         add("sig:(%sI)J:int-to-long" % T, "sig." + c, T + "I", "J", 2,
             lambda s, R: s.ins("int-to-long", 0, R.a).ins("return-wide", 0))
-        add("sig:(%sI)I:ushr" % T, "sig." + c, T + "I", "I", 2, lambda s, R: s.ins("ushr-int", 0, R.a, R.b).ins("return", 0))
+        add("sig:(%sI)I:ushr" % T, "ushr-int", T + "I", "I", 2, lambda s, R: s.ins("ushr-int", 0, R.a, R.b).ins("return", 0))
         for c2, T2 in (("byte", "B"), ("short", "S"), ("char", "C")):
             if c2 != c:
                 add("sig:(%sI)%s:int-to-%s" % (T, T2, c2), "sig." + c, T + "I", T2, 2,
@@ -362,7 +368,9 @@ def tier_b_special(thorough):
     P = []
 
     def add(name, params, ret, nloc, body):
-        P.append(Prog("B:special.%s" % name, "B:special.%s" % name, params, ret, nloc, body))
+        # one key for all the "throwing operation whose result is unused" variants (one root cause)
+        fam = "dead-div-rem" if name.startswith(("dead-", "overwritten-")) else name
+        P.append(Prog("B:special.%s" % name, "B:special.%s" % fam, params, ret, nloc, body))
     add("swap", "II", "I", 2,
         lambda s, R: s.ins("move", 0, R.a).ins("move", R.a, R.b).ins("move", R.b, 0).ins("sub-int", 0, R.a, R.b).ins("return", 0))
     add("swap.long", "JJ", "J", 4,
@@ -934,6 +942,26 @@ def sk_midbreak(op, xy):
     return body
 
 
+def sk_do_bodyvar(op, use_after):
+    # n = (a & 7) + 1; r = b; do { n--; t = n * 2; r = r*3 + t; } while (t <op> 0); return r [+ t]
+    # t is defined only inside the body and is used by the loop condition (and after the loop)
+    def body(s, R):
+        Ltop = D.Label()
+        s.ins("move", 0, R.b)
+        s.ins("and-int/lit8", 1, R.a, 7)
+        s.ins("add-int/lit8", 1, 1, 1)
+        s.label(Ltop)
+        s.ins("add-int/lit8", 1, 1, -1)
+        s.ins("mul-int/lit8", 2, 1, 2)
+        _loop_step(s, 2)
+        emit_if(s, op, 2, None, Ltop)
+        if use_after:
+            s.ins("add-int/2addr", 0, 2)
+            s.ins("add-int/2addr", 0, 1)
+        s.ins("return", 0)
+    return body
+
+
 def sk_fib(layout):
     # x = a; y = b; n = a & 7; while (n > 0) { t = x + y; x = y; y = t; n--; } return x     (simultaneous update)
     def body(s, R):
@@ -1196,6 +1224,9 @@ def tier_c(thorough):
             add("%s:%s" % (shape, ",".join(ops)), shape, sk_nestedif(shape, ops))
     for op, xy in (("ge", (1, 2)), ("eq", (1, 2)), ("gt", (1, 2)), ("le", (2, 1)), ("lt", (2, 1)), ("eq", (2, 1))):
         add("midbreak:%s.%d%d" % (op, xy[0], xy[1]), "midbreak", sk_midbreak(op, xy))
+    for op in ("gtz", "nez"):
+        add("dowhile.bodyvar:" + op, "dowhile.bodyvar", sk_do_bodyvar(op, False))
+        add("dowhile.useafter:" + op, "dowhile.useafter", sk_do_bodyvar(op, True))
     add("fib:top", "fib", sk_fib("top"))
     add("fib:rot", "fib", sk_fib("rot"))
     add("switch.inloop:packed", "switch.inloop", sk_switch_inloop("packed"))
@@ -1317,6 +1348,8 @@ def java_file(cls, progs, srcs, idxs):
 
 
 _ERR = re.compile(r"^(?:.*[/\\])?(\w+)\.java:(\d+): error: (.*)$")
+_LOCAL_ERRORS = ("cannot find symbol", "variable ", "incompatible types", "missing return statement",
+                 "unreachable statement", "bad operand type", "possible lossy conversion")
 JAVAC = ["javac", "-J-XX:+UseSerialGC", "-J-XX:TieredStopAtLevel=1", "-J-Xshare:auto", "-proc:none", "-nowarn",
          "-g:none", "-Xmaxerrs", "1000000", "-encoding", "UTF-8"]
 JAVA = ["java", "-XX:+UseSerialGC", "-XX:TieredStopAtLevel=1", "-Xshare:auto", "-Xss4m"]
@@ -1354,8 +1387,41 @@ def compile_and_run(work, cls, progs, srcs, acc):
                 unattributed.append(ln)
             else:
                 bad.setdefault(hit, m.group(3))
+        # Errors of javac's attribution phase are local to the method they are reported in.  Lexer/parser errors can
+        # cascade into the following methods, so such a method is confirmed by compiling it alone.
+        for i in sorted(bad):
+            if bad[i].startswith(_LOCAL_ERRORS):
+                continue
+            t, _ = java_file(cls, progs, srcs, [i])
+            with open(path, "w") as f:
+                f.write(t)
+            rr = subprocess.run(JAVAC + ["-d", work, path], capture_output=True, text=True)
+            acc.count("javac_runs")
+            if rr.returncode == 0:
+                del bad[i]
+            else:
+                msgs = [m.group(3) for m in map(_ERR.match, rr.stderr.splitlines()) if m]
+                bad[i] = (msgs or [bad[i]])[0]
         if not bad:
-            raise RuntimeError("javac failed outside any decompiled method:\n" + r.stderr[:3000])
+            # no error line falls inside a method (e.g. unbalanced braces reported at end of file): bisect
+            def bisect(ids):
+                t, _ = java_file(cls, progs, srcs, ids)
+                with open(path, "w") as f:
+                    f.write(t)
+                rr = subprocess.run(JAVAC + ["-d", work, path], capture_output=True, text=True)
+                acc.count("javac_runs")
+                if rr.returncode == 0:
+                    return {}
+                if len(ids) == 1:
+                    msgs = [m.group(3) for m in map(_ERR.match, rr.stderr.splitlines()) if m]
+                    return {ids[0]: (msgs or ["rejected"])[0]}
+                h = len(ids) // 2
+                out = bisect(ids[:h])
+                out.update(bisect(ids[h:]))
+                return out
+            bad = bisect(live)
+            if not bad:
+                raise RuntimeError("javac failed but no single method is rejected on its own:\n" + r.stderr[:3000])
         if rounds > 20:
             raise RuntimeError("javac attribution does not converge:\n" + r.stderr[:3000])
         rejected.update(bad)
